@@ -134,9 +134,6 @@ def run_prop(pid, tier, replay=None):
         "alias chains are merged by the harness with expr.ValidationExpr.Merge",
         "theorems are stated for every n (depth to which user types are followed); both sides of every equation use the same n",
         "decoding (encoding/json, strconv) is an oracle: a value that does not decode is outside the model",
-        "typed (non-string) request cookies: goa's generated CLIENT request encoder does not compile for them (recorded finding C01 non-string-cookie); "
-        "the harness rewrites that one swapped conversion statement in the generated client before building (count under coverage.harness_notes, "
-        "0 once the template is repaired: proposed_fixes/C14-client-typed-cookie-encoder.diff); the generated server and the OpenAPI documents are not touched",
     ]
     if pid == "C04":
         assumptions = common + [
